@@ -99,7 +99,7 @@ def parse_output(res, out):
     return res
 
 
-def run(workdir_path, module, cfg_text, workers=None, timeout=600, simulate=None,
+def run(workdir_path, module, cfg_text, workers=None, timeout=1800, simulate=None,
         depth=None, seed=None, coverage=False, extra=None, env=None, deadlock=False,
         java_opts=None):
     """Run TLC on `module` (name without .tla) inside workdir_path."""
@@ -159,7 +159,7 @@ def parse_reject(t):
     return int(m.group(1)), m.group(2), m.group(3)
 
 
-def validate_batches(name, module, cases, cfg_text, shards=None, timeout=900, fname="cases.ndjson"):
+def validate_batches(name, module, cases, cfg_text, shards=None, timeout=1800, fname="cases.ndjson"):
     """Batch trace validation (code -> spec): write `cases` (list of JSON-able dicts,
     each with integer field 'id') as ndjson shards, run one single-worker TLC per shard in
     parallel on `module`, and collect the REJECT tuples.  Returns (rejects, states, wall)
